@@ -14,7 +14,7 @@ else
   rm -f _CoqProject.new
   [ -f Makefile ] || coq_makefile -f _CoqProject -o Makefile > /dev/null || exit 2
 fi
-timeout 1700 make -j16 "$@" > .make.log 2>&1
+timeout 1700 make -k -j16 "$@" > .make.log 2>&1
 rc=$?
 grep -v '^COQDEP\|^COQC\|^make\|^CLEAN\|^ROCQ' .make.log | head -60
 exit $rc
